@@ -255,6 +255,18 @@ func c08Scenario(p c08P, b Bounds) *Scenario {
 						}
 					}
 				}
+				// R5b: a call handler that only starts after Stop has completed (it was dequeued before the stop and
+				// parked, e.g. behind a running notification) must find its context cancelled
+				if retStop >= 0 && retStop < ws {
+					for tok, en := range enter {
+						if en > retStop && en < ws && x.Log[en].Arg(1) != "" && x.Log[en].Arg(0) != "c9_9" {
+							Hit("C08.R5")
+							if ex := findEv(x, en, "h_exit", "*", "*", tok); ex >= 0 && x.Log[ex].Arg(3) == "-" {
+								v = append(v, Viol{"C08.R5", fmt.Sprintf("call handler %s started after Stop had completed and its context was never cancelled", x.Log[en].Arg(0))})
+							}
+						}
+					}
+				}
 				// R6: valid notifications received (unambiguously) before the stop are handed to their handlers
 				if p.Stepped {
 					q := findEv(x, 0, "quiet", "before-cause")
